@@ -203,6 +203,18 @@ pub fn repo_dir() -> std::path::PathBuf {
     "/repo".into()
 }
 
+/// JSON pointers (in the generated message) of the `{"substr": [{"fake": ..}, 0, N]}` sites of a scenario schema
+fn substr_sites(schema: &Value, path: &mut Vec<String>, out: &mut Vec<(String, usize)>) {
+    match schema {
+        Value::Object(o) => {
+            if let Some(Value::Array(a)) = o.get("substr") { if a.len() == 3 && a[0].get("fake").is_some() { if let Some(n) = a[2].as_u64() { out.push((format!("/{}", path.join("/")), n as usize)); } } return; }
+            for (k, v) in o { path.push(k.clone()); substr_sites(v, path, out); path.pop(); }
+        }
+        Value::Array(a) => for (i, v) in a.iter().enumerate() { path.push(i.to_string()); substr_sites(v, path, out); path.pop(); },
+        _ => {}
+    }
+}
+
 pub struct Scen { pub mt: String, pub name: String, pub path: std::path::PathBuf, pub value: Value }
 
 pub fn scenarios(ev: &mut Evidence, col: &mut Collector) -> Vec<Scen> {
@@ -272,7 +284,7 @@ fn dev_values(thorough: bool) -> Vec<u64> {
 }
 
 #[derive(Default)]
-struct Acc { col: Collector, samples: Vec<Value>, wide_points: u64, runs: u64, capped: u64, draws_max: usize, outcomes: std::collections::BTreeSet<String>, distinct_texts: std::collections::HashSet<u64>, nondet: Vec<String>, dev_points: u64, pair_runs: u64, clock_runs: u64 }
+struct Acc { col: Collector, derived_runs: u64, samples: Vec<Value>, wide_points: u64, runs: u64, capped: u64, draws_max: usize, outcomes: std::collections::BTreeSet<String>, distinct_texts: std::collections::HashSet<u64>, nondet: Vec<String>, dev_points: u64, pair_runs: u64, clock_runs: u64 }
 
 fn fnv(s: &str) -> u64 { let mut h = 0xcbf29ce484222325u64; for b in s.bytes() { h ^= b as u64; h = h.wrapping_mul(0x100000001b3); } h }
 
@@ -356,6 +368,31 @@ pub fn run(ctx: &Ctx) -> i32 {
             } else { acc.outcomes.insert("pairs-skipped(points>cap)".into()); }
         }
         if std::env::var("VERIF_C15_TRACE").is_ok() { eprintln!("{}/{} runs={} draws_max={} {:.1}s", sc.mt, sc.name, acc.runs, acc.draws_max, t_sc.elapsed().as_secs_f64()); }
+        // derived draws at the `substr(fake, 0, N)` sites: the cut of a longer text lands right after a blank.
+        // (Which long names exist is a property of the faker tables; the class "line ends in a blank" is reachable
+        // -- a seeded change was demonstrated on such draws -- so it is emulated on the generated value: the line is
+        // cut after each of its blanks.)
+        {
+            let mut derived_order = 0u64;
+            let mut sites = vec![]; substr_sites(sc.value.get("schema").unwrap_or(&Value::Null), &mut vec![], &mut sites);
+            let base = run_chain(&sc.value, &Sched { base: Base::Lcg(1), devs: vec![], clock: t0 });
+            if let Some(g) = base.generated {
+                for (ptr, n) in sites {
+                    let Some(Value::String(line)) = g.pointer(&ptr).cloned() else { continue };
+                    for (k, ch) in line.char_indices() {
+                        if ch != ' ' || k == 0 || k + 1 > n { continue; }
+                        let mut v = g.clone();
+                        if let Some(x) = v.pointer_mut(&ptr) { *x = Value::String(line[..=k].to_string()); }
+                        derived_order += 1; acc.runs += 1; acc.derived_runs += 1;
+                        let mut t = None;
+                        if let Some((clause, detail)) = judge_generated(&v, &mut t) {
+                            acc.outcomes.insert(clause.clone());
+                            acc.col.add(format!("C15/{}/{}/{}", sc.mt, sc.name, clause), order0 + (1 << 31) + derived_order, || format!("derived draw (line cut after a blank at {ptr}): {detail}"), || json!({"scenario": sc.path.to_string_lossy(), "derived": {"pointer": ptr, "line": &line[..=k]}, "generated": v, "mt": t}));
+                        }
+                    }
+                }
+            }
+        }
         // clock alphabet
         for t in &clk {
             for b in [Base::Lcg(1), Base::Max] {
@@ -365,12 +402,12 @@ pub fn run(ctx: &Ctx) -> i32 {
         }
     });
     let mut runs = 0; let mut capped = 0; let mut dmax = 0; let mut outcomes = std::collections::BTreeSet::new(); let mut texts = 0usize; let mut nondet = vec![];
-    let mut samples: Vec<Value> = vec![]; let mut per: Vec<Value> = vec![]; let (mut devp, mut pairs, mut clockr, mut wide) = (0, 0, 0, 0u64);
+    let mut samples: Vec<Value> = vec![]; let mut per: Vec<Value> = vec![]; let (mut devp, mut pairs, mut clockr, mut wide) = (0, 0, 0, 0u64); let mut derived = 0u64;
     for (k, a) in accs.into_iter().enumerate() {
         // par_for returns one accumulator per worker, not per item: only totals are meaningful
         let _ = k;
         runs += a.runs; capped += a.capped; dmax = dmax.max(a.draws_max); outcomes.extend(a.outcomes); texts += a.distinct_texts.len(); nondet.extend(a.nondet);
-        samples.extend(a.samples.clone()); devp += a.dev_points; pairs += a.pair_runs; clockr += a.clock_runs; wide += a.wide_points;
+        derived += a.derived_runs; samples.extend(a.samples.clone()); devp += a.dev_points; pairs += a.pair_runs; clockr += a.clock_runs; wide += a.wide_points;
         col.merge(a.col);
     }
     per.push(json!({"note": "per-scenario numbers are not kept; totals below"})); samples.truncate(6);
@@ -382,6 +419,7 @@ pub fn run(ctx: &Ctx) -> i32 {
     ev.set("chain_executions", json!(runs));
     ev.set("draw_points_deviated", json!(devp));
     ev.set("pair_runs", json!(pairs));
+    ev.set("derived_blank_cut_runs", json!(derived));
     ev.set("wide_draw_points_given_extra_values", json!(wide));
     ev.set("clock_runs", json!(clockr));
     ev.set("runs_cut_by_draw_cap", json!(capped));
